@@ -5,7 +5,9 @@ C17 driver: the rolling-appender case format of `Driver/C05.lean` with an on-sta
 and a dense pre-existing window. The specification is the statement as a function: the first
 append of every appender rolls iff the file that exists at that moment has at least `min_size`
 bytes — the old content becomes the newest archive (`Spec.rotateWindow`), the record starts a
-fresh file; every other append just extends the active file; nothing else ever changes. It is
+fresh file; every other append just extends the active file; nothing else ever changes; the
+roller is asked exactly once by that first append and never otherwise (the harness's roller wrapper
+counts `Roll::roll` calls; `g!record` makes it report `Err` once after doing its work). It is
 compared with the directory the real code produced after every operation.
 -/
 namespace Driver.C17
@@ -16,6 +18,8 @@ structure Expect where
   window : List Bytes        -- newest first, slot base+i
   active : Bytes
   first : Bool
+  /-- the log file exists (it does not after a rotation whose record was not written) -/
+  present : Bool := true
 
 /-- pre-existing archives inside the window, newest first (the generator makes them dense from base) -/
 def window0 (c : Case) : List Bytes :=
@@ -29,15 +33,20 @@ def bystanders (c : Case) : List (Log4rs.Roller.Path × Bytes) :=
 def renderExpect (c : Case) (x : Expect) : String :=
   let (b, _) := c.window
   renderSnap (bystanders c ++ (List.range x.window.length).filterMap (fun i => x.window[i]?.map (fun w => (c.archName (b + i), w))) ++
-    [(activePath, x.active)])
+    (if x.present then [(activePath, x.active)] else []))
+
+def isLate (op : OpSpec) : Bool := match op.op with | .append _ (some k) => k == LATE | _ => false
 
 def stepExpect (c : Case) (minSize : Nat) (x : Expect) (op : OpSpec) : Expect :=
   match op.op, op.rec? with
   | .append _ _, some r =>
     if x.first ∧ x.active.length ≥ minSize then
-      { window := Spec.rotateWindow c.window.2 x.window x.active, active := recBytes r.chunks, first := false }
-    else { x with active := x.active ++ recBytes r.chunks, first := false }
-  | .restart, _ => { x with active := if c.appendMode then x.active else [], first := true }
+      -- the one rotation; when the roller reports Err (after doing its work) the append fails
+      -- before the record is written: the old content is archived, no new file yet
+      if isLate op then { window := Spec.rotateWindow c.window.2 x.window x.active, active := [], first := false, present := false }
+      else { window := Spec.rotateWindow c.window.2 x.window x.active, active := recBytes r.chunks, first := false }
+    else { x with active := x.active ++ recBytes r.chunks, first := false, present := true }
+  | .restart, _ => { x with active := if c.appendMode then x.active else [], first := true, present := true }
   | _, _ => x
 
 def specGo (c : Case) (minSize : Nat) : Nat → Expect → List OpSpec → List ObsEntry → Option String
@@ -45,8 +54,11 @@ def specGo (c : Case) (minSize : Nat) : Nat → Expect → List OpSpec → List 
   | k, x, op :: ops, e :: es =>
     let x' := stepExpect c minSize x op
     let rolledNow := x.first ∧ x.active.length ≥ minSize ∧ op.rec?.isSome
+    let expectErr := rolledNow ∧ isLate op
     if e.res = "PANIC" then some ("panic at op " ++ toString k)
-    else if op.rec?.isSome ∧ e.res ≠ "ok" then some ("append failed at op " ++ toString k)
+    else if e.calls ≠ (if rolledNow then 1 else 0) then
+      some (toString e.calls ++ " rotation request(s) to the roller at op " ++ toString k ++ ", expected " ++ (if rolledNow then "exactly 1" else "none"))
+    else if op.rec?.isSome ∧ (e.res = "ok") = expectErr then some ("append result " ++ e.res ++ " at op " ++ toString k)
     else if e.snapS ≠ renderExpect c x' then
       some ((if rolledNow then "first record: old content is not the newest archive / record not alone in a fresh file"
              else if x.first ∧ op.rec?.isSome then "first record rolled although the file was smaller than min_size (or lost data)"
@@ -92,8 +104,9 @@ def handleConc (cas obs : List String) : Answer :=
       let othersOk : Bool :=
         renderSnap (cc.snap.filter (fun e => e.1 ≠ activePath) ++ [(activePath, [])]) == renderExpect c { x1 with active := [] }
       let allAcked := (cc.threads.zip cc.acks).all (fun (t, ids) => t.map (·.id) == ids)
-      let ok := allAcked && othersOk && Spec.isMergeOfWhole initial cc.acked active
-      { model := if ok then cc.acksS ++ "!" ++ cc.snapS else cc.serial,
+      let callsOk := cc.calls = (if rolls ∧ total > 0 then 1 else 0)
+      let ok := allAcked && othersOk && callsOk && Spec.isMergeOfWhole initial cc.acked active
+      { model := if ok then cc.echo else cc.serial,
         spec := if ok then "ok" else
           "FAIL:simultaneous first appends: not exactly one rotation of the old content with every record whole after it;sig=" ++ c.sig "C17" ++ "-conc",
         tags := cc.tags ++ [if rolls then "rolls" else "no-roll"] }
